@@ -1030,9 +1030,11 @@ impl Property for C05 {
     }
 }
 
-/// Shapes of the recorded (open) findings — see /verif/known_findings.json. Both concern the
-/// nested-loop join's memory-limited spill fallback, which can only be entered under a memory limit.
+/// Shapes of the recorded (open) findings — see /verif/known_findings.json.
 fn known_shape(case: &Case) -> Option<String> {
+    if case.op == Op::SymHash && case.null_eq_null && case.left.rows.iter().chain(case.right.rows.iter()).any(|r| r.k.iter().any(|v| v.is_null())) {
+        return Some("shj:null-equals-null:null-key".into());
+    }
     if case.op != Op::NestedLoop || case.mem.is_none() {
         return None;
     }
